@@ -14,14 +14,156 @@ def main(tier):
         st = c02.run_cases(chk, "C13", 2400 if tier == "quick" else 60000, opts, "c13")
         if st.get("TCE", 0) < 50:
             raise MachineryFailure("too few failing calls were generated")
-        chk.cov["distinct_nontrivial"] = st.get("TCE", 0) + st.get("AnnErr", 0)
+        nt = hint_cases(chk, 1600 if tier == "quick" else 40000)
+        chk.cov["distinct_nontrivial"] = st.get("TCE", 0) + st.get("AnnErr", 0) + nt
         chk.cov["states"] = max(chk.cov["states"], 1)
         chk.cov["rule"] = ("random signatures of 1..4 array parameters (+return), both typecheckers, positional / keyword / reversed "
                            "keyword, dataclass __init__, both values of jaxtyping_remove_typechecker_stack (with __cause__ "
                            "presence); message parsed into stage / function / blamed parameter / printed bindings and compared "
                            "with the specification by TLC; non-trivial = calls that raise")
-        chk.assumptions += ["unions and PyTree-annotated parameters are not generated here",
+        chk.assumptions += ["parameters with unions / tuples / PyTrees are executed with typeguard only (beartype's member order and "
+                            "container sampling are unspecified)",
                             "the message is parsed with regular expressions on its documented sentences"]
     except MachineryFailure as e:
         return chk.abort(str(e))
     return chk.finish()
+
+
+# ---------------------------------------------------------------- parameters with unions / tuples / PyTrees
+def _tok(mods, k, nm="", v=0):
+    return {"mods": mods, "base": {"k": k, "nm": nm, "v": v, "e": []}}
+
+
+def hint_catalogue():
+    a, b, c = _tok([], "ident", "a"), _tok([], "ident", "b"), _tok([], "ident", "c")
+    arr = lambda toks, cat="f": ["arr", toks, cat]
+    S = {"pieces": ["T"], "dots": "none", "str": "T"}
+    return {
+        "A": arr([a]), "B": arr([b]), "AB": arr([a, b]), "V": arr([_tok(["*"], "ident", "v")]), "Ai": arr([a], "i"),
+        "U_ab_ac": ["union", arr([a, b]), arr([a, c])], "U_ab_a": ["union", arr([a, b]), arr([a])],
+        "U_Ai_A": ["union", arr([a], "i"), arr([a])], "U_A_int": ["union", arr([a]), ["int"]],
+        "tupA": ["tupA", arr([a])], "U_tupA_V": ["union", ["tupA", arr([a])], arr([_tok(["*"], "ident", "v")])],
+        "ptA": ["pt", arr([a])], "ptAB": ["pt", arr([a, b])], "ptS_A": ["ptS", arr([a]), S],
+        "ptS_Q": ["ptS", arr([_tok(["?"], "ident", "a")]), S], "ptS_any": ["ptS", ["any"], S],
+    }
+
+
+def rand_value(rng, sizes):
+    def arr(shape, dt="f"):
+        return {"k": "arr", "c": [], "keys": [], "shape": shape, "dt": dt}
+    k = rng.random()
+    s = lambda: rng.choice(sizes)
+    if k < .35:
+        return arr([s()])
+    if k < .6:
+        return arr([s(), s()])
+    if k < .65:
+        return arr([s()], "i")
+    if k < .7:
+        return {"k": "int", "c": [], "keys": [], "shape": [], "dt": ""}
+    if k < .85:
+        n = rng.randint(1, 3)
+        return {"k": "tuple", "c": [arr([s()]) if rng.random() < .8 else arr([s(), s()]) for _ in range(n)], "keys": [], "shape": [], "dt": ""}
+    if k < .93:
+        return {"k": "tuple", "c": [arr([s()]), {"k": "int", "c": [], "keys": [], "shape": [], "dt": ""}], "keys": [], "shape": [], "dt": ""}
+    return {"k": "dict", "c": [arr([s()]), arr([s()])], "keys": ["k1", "k2"], "shape": [], "dt": ""}
+
+
+def hint_worker(args):
+    seed, n, out_path, id0 = args
+    import random
+    import json as _json
+    import numpy as np
+    from jaxtyping import jaxtyped, TypeCheckError, AnnotationError
+    from typeguard import typechecked
+    from . import pytree_rows as P
+    from . import calls
+    rng = random.Random(seed)
+    cat = hint_catalogue()
+    names = sorted(cat)
+    fcache = {}
+    with open(out_path, "w") as f:
+        for k in range(n):
+            np_ = rng.choice([1, 2, 2, 3])
+            hs = [rng.choice(names) for _ in range(np_)]
+            sizes = rng.choice([[2, 3], [2, 2, 3], [1, 2, 4]])
+            vals = [rand_value(rng, sizes) for _ in range(np_)]
+            hasret = rng.random() < .4
+            rh = rng.choice(["A", "AB", "B", "ptA"])
+            rv = rand_value(rng, sizes)
+            key = (tuple(hs), rh if hasret else None)
+            fn = fcache.get(key)
+            if fn is None:
+                g = {"COUNTER": calls.COUNTER, "RET": calls.RET}
+                ps = []
+                for i, h in enumerate(hs):
+                    g[f"H{i}"] = P.render_leaftype(cat[h])
+                    ps.append(f"x{i}: H{i}")
+                rs = ""
+                if hasret:
+                    g["RH"] = P.render_leaftype(cat[rh])
+                    rs = " -> RH"
+                exec(f"def f({', '.join(ps)}){rs}:\n    COUNTER[0] += 1\n    return RET[0]\n", g)
+                fn = fcache[key] = jaxtyped(typechecker=typechecked)(g["f"])
+            pyvals = [P.render_tree(v, rng) for v in vals]
+            calls.RET[0] = P.render_tree(rv, rng) if hasret else None
+            variants = []
+            for pa in ("pos", "kw"):
+                a_, kw = (pyvals, {}) if pa == "pos" else ([], {f"x{i}": v for i, v in enumerate(pyvals)})
+                v = calls.classify(fn, a_, kw, "full")
+                v["desc"] = f"typeguard/new/{pa}"
+                pr = v.get("printed", {"single": {}, "variadic": {}})
+                v["printed"] = {"single": {P.abs_key(kk): vv for kk, vv in pr["single"].items()},
+                                "variadic": {P.abs_key(kk): vv for kk, vv in pr["variadic"].items()},
+                                "structs": sorted(v.get("pytree_printed", {}))}
+                variants.append(v)
+            row = {"id": id0 + k, "params": [{"nm": f"x{i}", "hint": cat[h]} for i, h in enumerate(hs)], "vals": vals,
+                   "hasret": hasret, "rethint": cat[rh] if hasret else ["any"], "retval": rv if hasret else vals[0], "args": {},
+                   "variants": variants, "desc": f"f({', '.join(hs)})" + (f" -> {rh}" if hasret else "")}
+            f.write(_json.dumps(row, separators=(",", ":")) + "\n")
+    return n
+
+
+def hint_cases(chk, ncases):
+    import json
+    import os
+    from concurrent.futures import ProcessPoolExecutor
+    from . import tlc
+    from .common import validate_rows
+    from . import pytree_rows as P
+    nproc = tlc.NCPU
+    per = max(1, ncases // nproc)
+    jobs = [(chk.seed * 7 + i, per, os.path.join(chk.workdir, f"hint_{i}.ndjson"), i * 1_000_000) for i in range(nproc)]
+    with ProcessPoolExecutor(max_workers=nproc) as ex:
+        n = sum(ex.map(hint_worker, jobs))
+    files = [j[2] for j in jobs]
+    mism, total = validate_rows(chk, "Rows_JtCall2", files, name="hints", canary_field="none", heap="4g")
+    want = dict(mism)
+    nt = 0
+    for fp in files:
+        for line in open(fp):
+            r = json.loads(line)
+            o = r["variants"][0]["outcome"]
+            nt += o != "ok"
+            if r["id"] in want:
+                vs = "; ".join(P.tree_str(v) for v in r["vals"])
+                chk.disagree(f"C13:hints:{r['desc']}:({vs}):got={o}/{r['variants'][0].get('stage')}/{r['variants'][0].get('blamed')}",
+                             {"row": r, "spec_expected": want[r["id"]]})
+            if r["id"] % 1_000_000 == 2:
+                chk.sample({"call": r["desc"], "values": [P.tree_str(v) for v in r["vals"]], "observed": r["variants"][0]}, limit=5)
+    # binding self-test
+    for line in open(files[0]):
+        r = json.loads(line)
+        if r["variants"][0]["outcome"] == "TCE" and r["variants"][0]["stage"] == "params":
+            r["variants"][0]["blamed"] = "x9"
+            p = os.path.join(chk.workdir, "hintcorrupt.ndjson")
+            open(p, "w").write(json.dumps(r) + "\n")
+            m2, _ = validate_rows(chk, "Rows_JtCall2", [p], name="selftest", canary_field="none")
+            chk.cov["tlc_runs"].pop()
+            if not m2:
+                raise MachineryFailure("binding self-test: corrupted blamed parameter accepted")
+            break
+    chk.cov["traces_validated_against_impl"] += 2 * total
+    chk.cov["evaluations"] += 2 * total
+    chk.part("hint_cases", cases=total, rejected_or_raising=nt)
+    return nt
